@@ -278,3 +278,162 @@ def sampler_record(max_sample=0, note_map=None, legacy_map=None, vol_points=None
     if with_tail:
         rec += u32(tail[0]) + s32(tail[1]) + s32(tail[2])
     return rec
+
+
+# ------------------------------------------------------------------------------------------
+# project files (docs: "Project chunks", "Pattern chunks"; order: specs chunk_sections.project)
+
+PROJECT_FIELDS = [  # (key, chunk id, kind)
+    ("based_on_version", b"BVER", "ver"), ("flags", b"FLGS", "u32"), ("sync", b"SFGS", "u32"), ("initial_bpm", b"BPM ", "u32"), ("initial_tpl", b"SPED", "u32"),
+    ("time_grid", b"TGRD", "u32"), ("time_grid2", b"TGD2", "u32"), ("global_volume", b"GVOL", "u32"), ("name", b"NAME", "cstr"),
+    ("modules_scale", b"MSCL", "u32"), ("modules_zoom", b"MZOO", "u32"), ("modules_x_offset", b"MXOF", "s32"), ("modules_y_offset", b"MYOF", "s32"),
+    ("modules_layer_mask", b"LMSK", "u32"), ("modules_current_layer", b"CURL", "u32"), ("timeline_position", b"TIME", "s32"),
+    ("restart_position", b"REPS", "s32"), ("selected_module", b"SELS", "u32"), ("selected_generator", b"LGEN", "s32"),
+    ("current_pattern", b"PATN", "u32"), ("current_track", b"PATT", "u32"), ("current_line", b"PATL", "u32"),
+]
+PROJECT_DEFAULTS = {"based_on_version": (2, 1, 2, 1), "flags": 0, "sync": 9, "initial_bpm": 125, "initial_tpl": 6, "time_grid": 4, "time_grid2": 4, "global_volume": 80,
+                    "name": "Project", "modules_scale": 256, "modules_zoom": 256, "modules_x_offset": 0, "modules_y_offset": 0, "modules_layer_mask": 0,
+                    "modules_current_layer": 0, "timeline_position": 0, "restart_position": 0, "selected_module": 0, "selected_generator": -1,
+                    "current_pattern": 0, "current_track": 0, "current_line": 0}
+
+
+def _enc_field(kind, v):
+    if kind == "u32":
+        return u32(v)
+    if kind == "s32":
+        return s32(v)
+    if kind == "ver":
+        return list(reversed(list(v)))
+    if kind == "cstr":
+        return list(v.encode("utf8")) + [0]
+    raise ValueError(kind)
+
+
+def enc_project_header(version=(2, 1, 2, 1), omit=(), **fields):
+    """[SVOX, VERS, <project chunks>] as a list of chunks; `omit` drops optional chunks by key"""
+    vals = dict(PROJECT_DEFAULTS)
+    vals.update(fields)
+    out = [ck(b"SVOX"), ck(b"VERS", list(reversed(list(version))))]
+    for key, cid, kind in PROJECT_FIELDS:
+        if key in omit:
+            continue
+        out.append(ck(cid, _enc_field(kind, vals[key])))
+    return out
+
+
+def enc_note(note=0, vel=0, module=0, ctl=0, val=0):
+    return [note, vel] + u16(module) + u16(ctl) + u16(val)
+
+
+def enc_pattern(cells, tracks, lines, name=None, y_size=32, flags_PFLG=0, icon=None, fg=(0, 0, 0), bg=(255, 255, 255), flags_PFFF=0, x=0, y=0):
+    """cells: row-major list of 8-byte lists"""
+    out = [ck(b"PDTA", cat(cells))]
+    if name is not None:
+        out.append(ck(b"PNME", list(name.encode("utf8")) + [0]))
+    out += [ck(b"PCHN", u32(tracks)), ck(b"PLIN", u32(lines)), ck(b"PYSZ", u32(y_size)), ck(b"PFLG", u32(flags_PFLG)),
+            ck(b"PICO", list(icon) if icon is not None else [0] * 32), ck(b"PFGC", list(fg)), ck(b"PBGC", list(bg)),
+            ck(b"PFFF", u32(flags_PFFF)), ck(b"PXXX", s32(x)), ck(b"PYYY", s32(y)), ck(b"PEND")]
+    return out
+
+
+def enc_clone(source, flags_PFFF=1, x=0, y=0):
+    return [ck(b"PPAR", u32(source)), ck(b"PFFF", u32(flags_PFFF)), ck(b"PXXX", s32(x)), ck(b"PYYY", s32(y)), ck(b"PEND")]
+
+
+def enc_project(header=None, patterns=(), modules=()):
+    """patterns: list of chunk lists (from enc_pattern/enc_clone) or None for an empty slot;
+    modules: list of chunk lists (from enc_module, no SEND) or None for an empty slot"""
+    out = list(header if header is not None else enc_project_header())
+    for p in patterns:
+        out += [ck(b"PEND")] if p is None else list(p)
+    for m in modules:
+        if m is not None:
+            out += list(m)
+        out.append(ck(b"SEND"))
+    return cat(out)
+
+
+def enc_output(**kw):
+    kw.setdefault("flags", 0x43)
+    kw.setdefault("name", "Output")
+    return enc_module(None, in_project=True, **kw)
+
+
+def decode_project(data):
+    """-> dict(header fields, patterns: list, modules: list of module dicts / None)"""
+    ch = walk(data)
+    if not ch or ch[0][0] != b"SVOX" or len(ch[0][1]) != 0:
+        raise FormatError("missing SVOX header")
+    ids = {cid: (key, kind) for key, cid, kind in PROJECT_FIELDS}
+    hdr = {}
+    i = 1
+    if ch[i][0] != b"VERS":
+        raise FormatError("VERS expected")
+    hdr["version"] = tuple(reversed(list(ch[i][1])))
+    i += 1
+    order = [cid for _, cid, _ in PROJECT_FIELDS]
+    last = -1
+    while i < len(ch) and ch[i][0] in ids:
+        cid, pl = ch[i]
+        key, kind = ids[cid]
+        if order.index(cid) <= last:
+            raise FormatError("project chunk %r out of documented order" % cid)
+        last = order.index(cid)
+        if kind == "u32":
+            if len(pl) != 4:
+                raise FormatError("%r must be 4 bytes" % cid)
+            hdr[key] = rd_u32(pl)
+        elif kind == "s32":
+            if len(pl) != 4:
+                raise FormatError("%r must be 4 bytes" % cid)
+            hdr[key] = rd_s32(pl)
+        elif kind == "ver":
+            hdr[key] = tuple(reversed(list(pl)))
+        else:
+            hdr[key] = cstring(pl)
+        i += 1
+    patterns = []
+    cur = None
+    while i < len(ch) and ch[i][0][:1] == b"P":
+        cid, pl = ch[i]
+        if cid == b"PEND":
+            patterns.append(cur)
+            cur = None
+        else:
+            if cur is None:
+                cur = {"ids": []}
+            cur["ids"].append(cid)
+            if cid == b"PDTA":
+                cur["data"] = list(pl)
+            elif cid == b"PNME":
+                cur["name"] = cstring(pl)
+            elif cid == b"PCHN":
+                cur["tracks"] = rd_u32(pl)
+            elif cid == b"PLIN":
+                cur["lines"] = rd_u32(pl)
+            elif cid == b"PYSZ":
+                cur["y_size"] = rd_u32(pl)
+            elif cid == b"PFLG":
+                cur["flags_PFLG"] = rd_u32(pl)
+            elif cid == b"PICO":
+                cur["icon"] = list(pl)
+            elif cid == b"PFGC":
+                cur["fg"] = tuple(pl)
+            elif cid == b"PBGC":
+                cur["bg"] = tuple(pl)
+            elif cid == b"PFFF":
+                cur["flags_PFFF"] = rd_u32(pl)
+            elif cid == b"PXXX":
+                cur["x"] = rd_s32(pl)
+            elif cid == b"PYYY":
+                cur["y"] = rd_s32(pl)
+            elif cid == b"PPAR":
+                cur["source"] = rd_u32(pl)
+            else:
+                raise FormatError("undocumented pattern chunk %r" % cid)
+        i += 1
+    if cur is not None:
+        raise FormatError("pattern slot without PEND")
+    slots = split_modules(ch, i)
+    modules = [decode_module(s) if s else None for s in slots]
+    return {"header": hdr, "patterns": patterns, "modules": modules}
